@@ -128,3 +128,48 @@ Example C07_tcp_nonvacuous :
   fst (serialize t [1;2;3] true true (Some (ph4 [10;0;0;1] [10;0;0;2])) (repeat 170 64)) =
   Ok [4;210;0;80;0;0;0;1;0;0;0;2;96;16;0;100;120;61;0;0;3;3;7;0;1;2;3].
 Proof. vm_compute. reflexivity. Qed.
+
+(* ---------------------------------------------------------------- C06 *)
+From GP Require Import LtcpRoundtrip.
+
+(* For every representable layer value [tcp_wf]: in-range header fields, options as the decoder
+   builds them (NOP; kind/length/data with OptionLength = 2+len(OptionData); End-of-list last),
+   no MPTCP option, at most 40 option bytes, padding only behind End-of-list — every payload,
+   every pseudo-header, every prior buffer content: SerializeTo with FixLengths+ComputeChecksums
+   succeeds; decoding the bytes succeeds without truncation flag and yields the fields of the
+   layer as SerializeTo left it (which differ from the input layer only in DataOffset, Padding,
+   Checksum), options in order, the same payload, Contents ++ Payload = the bytes; serializing
+   the decoded layer again gives the same bytes. *)
+Theorem C06_tcp_roundtrip : forall t payload ph junk, tcp_wf t ->
+  exists bytes t' t2,
+    serialize t payload true true (Some ph) junk = (Ok bytes, t') /\
+    decode_into tcp0 bytes [] = (t2, false, Ok tt) /\
+    core t2 = core t' /\ t_payload t2 = payload /\ t_contents t2 ++ t_payload t2 = bytes /\
+    (t_sp t', t_dp t', t_seq t', t_ack t', t_flags t', t_win t', t_urg t', t_opts t', t_mp t') =
+    (t_sp t, t_dp t, t_seq t, t_ack t, t_flags t, t_win t, t_urg t, t_opts t, t_mp t) /\
+    (forall junk2, fst (serialize t2 (t_payload t2) true true (Some ph) junk2) = Ok bytes).
+Proof. exact roundtrip. Qed.
+Print Assumptions C06_tcp_roundtrip.
+
+(* non-vacuity: MSS, NOP, NOP, End-of-list and one junk padding byte (7 option bytes: the padding
+   is recomputed) is representable *)
+Example C06_tcp_nonvacuous :
+  tcp_wf (fst (fst (decode_into tcp0 (hdr 7 [2;4;5;180;1;1;0;9]) []))).
+Proof.
+  vm_compute. repeat split; try lia; try discriminate.
+  - apply ok_gen; [vm_compute; repeat split; try lia; discriminate|].
+    apply ok_nop. apply ok_nop. apply ok_eol.
+  - right. exists [mkopt 2 4 [5;180] 0 MPnone; nop; nop]. reflexivity.
+Qed.
+
+(* known finding: a decoded layer with an MPTCP option (MP_CAPABLE, 4 bytes) is written as kind 30,
+   length 2, no body, and the bytes do not decode back *)
+Theorem C06_tcp_mptcp_refuted :
+  let r := decode_into tcp0 (hdr 6 [30;4;1;129]) [] in
+  snd r = Ok tt /\
+  match fst (serialize (fst (fst r)) [] true true (Some 0) []) with
+  | Ok bytes => snd (decode_into tcp0 bytes []) = Err 21
+  | _ => False
+  end.
+Proof. vm_compute. split; reflexivity. Qed.
+Print Assumptions C06_tcp_mptcp_refuted.
